@@ -163,6 +163,7 @@ Proof.
     now rewrite kfr_remove_ref.
   - apply kfr_cb_return.
   - destruct (Nat.eqb c 0); [reflexivity|]. destruct (cancel_root_kfr s c) as [A [B C]]. unfold kfr. now rewrite A, B, C.
+  - destruct (watch_step_spec s c) as [->|[x [y [_ [-> _]]]]]; reflexivity.
 Qed.
 
 Lemma internal_kfr e s : internal_ev e -> kfr (step repaired s e) = kfr s.
@@ -331,6 +332,7 @@ Proof.
     rewrite vw_remove_ref. f_equal. apply vw_setc_keep; rewrite (getc_x s c x Ex); reflexivity.
   - apply vw_cb_return.
   - destruct (Nat.eqb c 0); [reflexivity|]. destruct (cancel_root_frame s c) as [E1 [_ [E3 _]]]. now apply vw_ext.
+  - destruct (watch_step_spec s c) as [->|[x [y [Hx [-> Hy]]]]]; [reflexivity|]. wsplit Hy. apply vw_setc_keep; rewrite (getc_x s c x Hx); assumption.
 Qed.
 
 Lemma internal_vw e s : internal_ev e -> vw (step repaired s e) = vw s.
